@@ -184,15 +184,8 @@ func EmitDecodeFacts(x X) {
 	}
 	w.Str("decodeRet", "decodeRune: final return", s.Render(b.List[3]))
 
-	// runeLen
-	b = x.Body("runeLen")
-	if len(b.List) != 2 {
-		x.Fail("runeLen: %d top-level statements, expected 2", len(b.List))
-	}
-	c, t, _ = x.IfParts(b.List[0])
-	w.Str("runeLenCond", "runeLen: condition", c)
-	w.Strs("runeLenThen", "runeLen: then-branch", t)
-	w.Str("runeLenElse", "runeLen: final return", s.Render(b.List[1]))
+	// runeLen: no text facts any more — its body is regenerated by go2lean on every run
+	// (lean/Golib/Gen/TransC05.lean) and tied to the model by c05_trans_runeLen / c05_trans_runeLen_any.
 
 	// writeRune
 	b = x.Body("writeRune")
